@@ -342,7 +342,7 @@ func (m *Model) noDisruption(t1, t2 time.Time) bool {
 			start = r.At
 		}
 	}
-	return !t1.Before(start.Add(time.Duration(m.sc.Opts.StartDelay) * time.Second))
+	return !t1.Before(start.Add(time.Duration(m.sc.Opts.EffDelay()) * time.Second))
 }
 
 // accepts: the integration succeeds (possibly slowly, at most slack) for attempts started anywhere in [t1,t2].
